@@ -115,6 +115,17 @@ def sched_stop_model(chk):
         raise vlib.Broken("the decrement-first variant of SchedStop is not rejected: the invariants are vacuous")
 
 
+def join_proto_model(chk):
+    """Level B: the join hand-shake (REQ_JOIN, p_link, TERMINATED) as coded (C03)"""
+    d = os.path.join(VERIF, "spec", "core")
+    vlib.tlc_check(chk, "JoinProto: joiner / terminating ULT hand-shake as coded, exhaustive incl. termination under fairness",
+                   os.path.join(d, "JoinProto.tla"), os.path.join(d, "JoinProtoMC.cfg"), timeout=300)
+    r = vlib.tlc_check(chk, "JoinProto with a joiner that tests the whole request word (must be violated)", os.path.join(d, "JoinProto.tla"),
+                       os.path.join(d, "JoinProtoBroken.cfg"), timeout=300, expect="violation")
+    if not r["violated"]:
+        raise vlib.Broken("the broken variant of JoinProto is not rejected: the invariants are vacuous")
+
+
 def run_exec(pid, tier, seed, emphasis, scns=("exec",), pre=None):
     chk = vlib.Check(pid, tier, seed)
     quick = tier == "quick"
